@@ -237,7 +237,7 @@ def render():
 # --- opaque gzip codec -------------------------------------------------------------------------
 # decoded payloads; the members are produced by the stdlib (zlib is NOT modelled: the specification
 # only sees the table "these bytes decode to those bytes")
-GZ_PLAIN = [b"abc", b"abcdefgh", b"0123456789abcdef", bytes(range(65, 105)), bytes(range(65, 106)), b"a" * 2000]
+GZ_PLAIN = [b"abc", b"a" * 40, b"ab" * 20 + b"c", b"a" * 2000]      # the last one is the "bomb"
 
 
 def gz_member(data):
